@@ -1,11 +1,14 @@
 import DmrVerif.Model.Storage
+import DmrVerif.Model.StorageOpaque
 
 /-!
 Line protocol for the storage model (C20; the value / record printers are reused by C18).
 
 Values:  `N` None · `i<n>` int (Python bools are printed as ints) · `s<cps>` str · `a<cps>:<port>`
 address tuple · `u<n>` the n-th UUID of the counter oracle · `t<cps>:<n>:<n>…` a tuple `(str, int, …)` of
-arity ≠ 2 (IPv6 peers) · `l<cps>:<n>…` a list `[str, int, …]` · `c<cps>:<cps>` a tuple `(str, str)`.
+arity ≠ 2 (IPv6 peers) · `l<cps>:<n>…` a list `[str, int, …]` · `c<cps>:<cps>` a tuple `(str, str)` ·
+`o<kind>.<cps>` a container as an opaque immutable value (`Model/StorageOpaque.lean`: kind 1 dict, 2 list, 3 set,
+4 bytearray; `<cps>` = the canonical text of its content).
 `<cps>` = code points joined by `.`.
 Patches: `-` (empty) or `key=val,key=val`; a key that is one of the nine data member names is a
 `Key.field`, any other name is a dynamic attribute.  A malformed patch ends with `!T` (the next key is no
@@ -24,7 +27,10 @@ def parseCps (s : String) : Option (List Nat) :=
 def valToString : Val → String
   | .none => "N"
   | .int n => "i" ++ toString n
-  | .str s => "s" ++ cpsToString s
+  | .str s =>
+    match Val.opaque? (.str s) with
+    | some (k, c) => "o" ++ cpsToString (k :: c)
+    | Option.none => "s" ++ cpsToString s
   | .addr ip p => "a" ++ cpsToString ip ++ ":" ++ toString p
   | .uuid n => "u" ++ toString n
   | .tupN ip rest => "t" ++ ":".intercalate (cpsToString ip :: rest.map toString)
@@ -36,7 +42,11 @@ def parseVal (s : String) : Option Val :=
   | ['N'] => some .none
   | 'i' :: r => (String.ofList r).toNat?.map .int
   | 'u' :: r => (String.ofList r).toNat?.map .uuid
-  | 's' :: r => (parseCps (String.ofList r)).map .str
+  | 's' :: r => (parseCps (String.ofList r)).bind (fun l => if (Val.str l).isPyStr then some (.str l) else none)
+  | 'o' :: r =>
+    match parseCps (String.ofList r) with
+    | some (k :: c) => if (Val.str c).isPyStr then some (Val.opaque k c) else none
+    | _ => none
   | 'a' :: r =>
     match (String.ofList r).splitOn ":" with
     | [ip, port] => do
